@@ -216,6 +216,13 @@ def make_bank(rng, fmt, decorated, sep, quick=True, unispace=True, big=False):
                      moves=0 if cont else rng.choice([0, 0, 1, 2, 4]),
                      root_pieces=rng.choice([1, 1, 2, 3]), sid=sid)
         sid += rng.choice([1, 1, 1, 3])
+        # hostile strings every format can carry: square / curly brackets in
+        # categories, Python literals as words, morphology or lemma, keyword
+        # tags (before the labels are decorated below)
+        gen.spice(rng, t, ['cat-square-bracket', 'word-python-literal',
+                           'morph-python-literal', 'pos-keyword',
+                           'cat-keyword', 'word-keyword', 'word-percent'],
+                  p=0.15)
         for node in gen.walk(t['root']):
             if 'c' in node and node is not t['root']:
                 lab, parts = make_label(rng, node['l'], sep, decorated)
